@@ -1,13 +1,272 @@
 /-
 C10 — session resumption is sound and falls back transparently.
+
+Property theorems only (helpers: `Gotlcp.Lemmas.Resumption`, `Gotlcp.Lemmas.ResumptionInv`).
+The model is `Gotlcp.Model.Resumption`: a world of caches and session objects, one step per
+connection (harness actions on the caches, two configurations, a man-in-the-middle fault).
+All statements hold for every history of any length, every cache capacity (including 1),
+every sequence of configurations and faults; the parameters that distinguish trees
+(`perKeyObject` – F5, `storeAfterFinished` – F16, `verifyOnLoad` – F13, `strictDelete` – F17)
+come from the regenerated facts and are pinned by `C10_facts`.
+
+Session identifiers are drawn from `src : Nat → Nat`, the model of `Config.rand`; "the random
+source does not repeat" is the hypothesis `Function.Injective src` (trusted RNG).
 -/
-import Gotlcp.Model.Resumption
-import Gotlcp.Generated.Facts
+import Gotlcp.Lemmas.ResumptionInv
+import Gotlcp.Lemmas.ResumptionFail
+import Gotlcp.Oracle.C10
+
+set_option linter.unusedSimpArgs false
+set_option linter.unusedVariables false
 
 namespace Gotlcp.Props.C10
 open Gotlcp.Model
 open Gotlcp.Model.Resumption
+open Gotlcp.Model.LRU (Entry)
+open Gotlcp.Lemmas.Resumption
+open Gotlcp.Lemmas.ResumptionInv
+open Gotlcp.Lemmas.ResumptionFail
 
-theorem C10_facts : Facts.missing = [] := by decide
+/-- the world reached by a history from empty caches -/
+def reach (p : Params) (src : Nat → Nat) (d : Nat) (ccap scap : Int) (h : List Conn) : World :=
+  (run p src (Resumption.init d ccap scap) h).1
+
+/-- the world in which connection `c` starts: after the harness actions that precede it -/
+def startOf (p : Params) (src : Nat → Nat) (w : World) (c : Conn) : World := runPres p src c w c.pre
+
+/-- the repaired client: one object per key (F5), session stored after the server's Finished (F16) -/
+structure Repaired (p : Params) : Prop where
+  perKey : p.perKeyObject = true
+  after  : p.storeAfterFinished = true
+
+theorem reach_inv (p : Params) (hr : Repaired p) (src : Nat → Nat) (hinj : Function.Injective src)
+    (d : Nat) (ccap scap : Int) (h : List Conn) : Inv src (reach p src d ccap scap h) :=
+  inv_run p hr.perKey hr.after hinj h _ (inv_init d ccap scap)
+
+/-! ### resumption happens only for a session the server still holds -/
+
+/-- **Resumed only if.** In any world whatsoever (so after any history), if either side of the
+next connection reports resumption, then the client offered an identifier `x`, the ServerHello
+echoes it, and at that moment the server's cache holds an entry for `x` whose session has the
+negotiated protocol version and a suite that both configurations enable now; that suite is the
+one the connection uses. -/
+theorem C10_resumed_only_if (p : Params) (src : Nat → Nat) (w : World) (c : Conn)
+    (h : (step p src w c).2.sRes = true ∨ (step p src w c).2.cRes = true) :
+    ∃ x so, (step p src w c).2.offered = some x ∧ (step p src w c).2.returned = some x ∧
+      (⟨idKey x, some so⟩ : Entry) ∈ ((startOf p src w c).servers c.server).q ∧
+      ((startOf p src w c).heap so).vers = p.version ∧
+      ((startOf p src w c).heap so).suite ∈ c.csuites ∧ ((startOf p src w c).heap so).suite ∈ c.ssuites ∧
+      (step p src w c).2.suite = some ((startOf p src w c).heap so).suite := by
+  unfold step at h ⊢
+  unfold startOf
+  generalize runPres p src c w c.pre = w' at h ⊢
+  unfold connect at h ⊢
+  simp only [] at h ⊢
+  split at h
+  · rename_i so hr
+    have ho := (resume_obs p (afterCheck p w' c).1 c (loadedOf p w' c) so (w'.nSec, w'.nSec + 1)
+      (pickSuite p c.ssuites (offer p c.csuites))).2 (h.symm)
+    have hfr := afterCheck_frame p w' c
+    have hal := afterLoad_frame p w' c
+    unfold afterCheck at hr
+    obtain ⟨x, hx, hso, _, hvers, hs1, hs2⟩ := checkForResumption_some hr
+    rw [hal.1] at hso
+    rw [hal.2.1] at hvers hs1 hs2
+    refine ⟨x, so, ?_, ?_, hso, hvers, offer_sub p _ hs1, hs2, ?_⟩
+    · rw [ho.2.2]
+      have : offeredId (afterCheck p w' c).1 (loadedOf p w' c) = offeredId (afterLoad p w' c) (loadedOf p w' c) := by
+        unfold offeredId; rw [hfr.1, hal.2.1]
+      rw [this]; exact hx
+    · rw [ho.1, ho.2.2]
+      have : offeredId (afterCheck p w' c).1 (loadedOf p w' c) = offeredId (afterLoad p w' c) (loadedOf p w' c) := by
+        unfold offeredId; rw [hfr.1, hal.2.1]
+      rw [this]; exact hx
+    · rw [ho.2.1, hfr.1]
+  · rename_i hr
+    split at h
+    · simp [failed] at h
+    · have := full_obs p src (afterCheck p w' c).1 c (loadedOf p w' c) ‹_› (w'.nSec, w'.nSec + 1)
+        (pickSuite p c.ssuites (offer p c.csuites))
+      rcases h with h | h
+      · rw [this.2] at h; cases h
+      · rw [this.1] at h; cases h
+
+/-- **Both report.** In any world, if both sides of the next connection complete, they agree on
+whether it was a resumption. -/
+theorem C10_both_report (p : Params) (src : Nat → Nat) (w : World) (c : Conn)
+    (hc : (step p src w c).2.cOk = true) (hs : (step p src w c).2.sOk = true) :
+    (step p src w c).2.cRes = (step p src w c).2.sRes := by
+  unfold step at hc hs ⊢
+  exact connect_both_report p src _ c hc hs
+
+/-! ### transparent fall-back, identity (histories of any length, repaired client) -/
+
+/-- **Fallback.** After ANY history (any number of connections to any servers, with any
+configurations, evictions, forged or stale cache entries, lost server caches and
+man-in-the-middle failures; client cache of any capacity including 1), an undisturbed
+connection either is a resumption that completes on both sides (both report it, the ServerHello
+echoes the offered identifier), or is a full handshake that behaves exactly as if nothing had
+been offered: it completes iff the two configurations share a suite, negotiates the suite a
+full handshake negotiates (`pickSuite`), authenticates the server it is run with, and gets a
+new identifier from the random source. No third outcome exists — in particular no honest
+handshake fails because of what a cache holds (F5). -/
+theorem C10_fallback (p : Params) (hr : Repaired p) (src : Nat → Nat) (hinj : Function.Injective src)
+    (d : Nat) (ccap scap : Int) (h : List Conn) (c : Conn) (hf : c.fault = .none) :
+    let o := (step p src (reach p src d ccap scap h) c).2
+    let full := pickSuite p c.ssuites (offer p c.csuites)
+    (o.cOk = true ∧ o.sOk = true ∧ o.cRes = true ∧ o.sRes = true ∧ o.offered.isSome = true ∧ o.returned = o.offered) ∨
+    (o.cRes = false ∧ o.sRes = false ∧ o.cOk = full.isSome ∧ o.sOk = full.isSome ∧
+      (∀ su, full = some su → o.suite = some su ∧ o.peer = some c.server ∧
+        o.returned = some (src (startOf p src (reach p src d ccap scap h) c).nId))) := by
+  intro o full
+  have hi := inv_runPres p hinj c c.pre _ (reach_inv p hr src hinj d ccap scap h)
+  have := connect_honest p hinj hi c hf
+  have hfull := connect_full p src (runPres p src c (reach p src d ccap scap h) c.pre) c
+  rcases this with ⟨a, b, c', d', e, f, _, _⟩ | ⟨a, b, c', d', e⟩
+  · exact Or.inl ⟨a, b, c', d', e, f⟩
+  · right
+    rw [hfull] at c' d' e
+    exact ⟨a, b, c', d', fun su hsu => ⟨(e su hsu).1, (e su hsu).2.1, (e su hsu).2.2.1⟩⟩
+
+/-- **Same identity.** After any history, whenever the client side of a connection completes
+(resumed or not, disturbed or not) the peer identity it reports is the identity of the server
+it is talking to — for a resumed connection that is the identity recorded by the original
+connection, because a session is only ever resumed by the server that issued its identifier. -/
+theorem C10_same_identity (p : Params) (hr : Repaired p) (src : Nat → Nat) (hinj : Function.Injective src)
+    (d : Nat) (ccap scap : Int) (h : List Conn) (c : Conn)
+    (hc : (step p src (reach p src d ccap scap h) c).2.cOk = true) (j : Nat)
+    (hj : (step p src (reach p src d ccap scap h) c).2.peer = some j) : j = c.server := by
+  have hi := inv_runPres p hinj c c.pre _ (reach_inv p hr src hinj d ccap scap h)
+  exact connect_identity p hi c hc j hj
+
+/-- with the F13 repair (certificates re-verified on load) a resumed connection always reports
+the server's identity (never "no certificates") -/
+theorem C10_same_identity_resumed (p : Params) (hr : Repaired p) (hv : p.verifyOnLoad = true) (src : Nat → Nat)
+    (hinj : Function.Injective src) (d : Nat) (ccap scap : Int) (h : List Conn) (c : Conn) (hf : c.fault = .none)
+    (hres : (step p src (reach p src d ccap scap h) c).2.cRes = true) :
+    (step p src (reach p src d ccap scap h) c).2.peer = some c.server := by
+  have hi := inv_runPres p hinj c c.pre _ (reach_inv p hr src hinj d ccap scap h)
+  rcases connect_honest p hinj hi c hf with ⟨_, _, _, _, _, _, _, hp⟩ | ⟨a, _⟩
+  · exact hp hv
+  · unfold step at hres; rw [a] at hres; cases hres
+
+/-! ### new sessions get new identifiers -/
+
+/-- **Fresh identifiers.** After any history, if the next connection's ServerHello carries an
+identifier that is not an echo of the offered one, it is the next draw `src n` of the random
+source (n = number of draws so far) and — when that source does not repeat — it differs from
+the identifier of every session object that exists anywhere: in the client cache, in any
+server cache, wiped, forged or genuine. (Its length and origin in the source text are the
+facts `resSessionIdLen = 32`, `resSessionIdFromRand` of `C10_facts`.) -/
+theorem C10_fresh_ids (p : Params) (hr : Repaired p) (src : Nat → Nat) (hinj : Function.Injective src)
+    (d : Nat) (ccap scap : Int) (h : List Conn) (c : Conn) (y : Nat)
+    (hy : (step p src (reach p src d ccap scap h) c).2.returned = some y)
+    (hnew : (step p src (reach p src d ccap scap h) c).2.returned ≠ (step p src (reach p src d ccap scap h) c).2.offered) :
+    y = src (startOf p src (reach p src d ccap scap h) c).nId ∧
+    ∀ o : Nat, o < (startOf p src (reach p src d ccap scap h) c).nObj →
+      ((startOf p src (reach p src d ccap scap h) c).heap o).id ≠ y := by
+  have hi := inv_runPres p hinj c c.pre _ (reach_inv p hr src hinj d ccap scap h)
+  unfold step at hy hnew
+  rcases connect_returned p src _ c y hy with he | he
+  · exact absurd he hnew
+  · refine ⟨he, ?_⟩
+    intro o ho
+    rw [he]
+    exact fresh_of_inv hi hinj ho (Nat.le_refl _)
+
+/-! ### a failed session is not offered again -/
+
+/-- **Failed sessions are not offered again.** Over any history (any length) in which the harness
+does not itself copy sessions between destinations, no connection offers the session that was in
+use (named by the ServerHello) in an earlier connection whose handshake ended in an error at
+the client — whether that was a resumption attempt (the loaded session is deleted by the
+deferred cleanup) or a full handshake that failed at the server's Finished (the new session is
+never stored: this is where the call order `readFinished` before `createNewSession` is used,
+F16). -/
+theorem C10_failed_not_reoffered (p : Params) (hr : Repaired p) (src : Nat → Nat) (hinj : Function.Injective src)
+    (d : Nat) (ccap scap : Int) (h : List Conn) (hs : ∀ c ∈ h, noStaleConn c) :
+    (run p src (Resumption.init d ccap scap) h).2.Pairwise NotReoffered :=
+  (noReoffer_pairwise _ [] (run_noReoffer p hr.perKey hr.after hinj h [] _ (inv_init d ccap scap)
+    (fext_init d ccap scap) hs)).1
+
+/-! ### the tie to the source: regenerated facts -/
+
+set_option maxRecDepth 100000 in
+/-- The facts the theorems rest on, as extracted from this tree (both stacks): the client stores
+an object of its own under each of its two keys (F5 repaired) and only after `readFinished`
+(F16 repaired); loadSession looks the session up by destination and re-verifies its recorded
+certificates (F13 repaired); the deferred cleanup removes a loaded session on any error under
+both keys; the server decides on resumption by the guards listed (identifier known, client
+authentication policy, version, suite offered by the client, suite enabled by the server),
+stores a session once — after the client's Finished is verified and before its own is sent —
+and draws new 32-byte identifiers from `Config.rand`. -/
+theorem C10_facts :
+    Oracle.C10.tlcpParams.perKeyObject = true ∧ Oracle.C10.dtlcpParams.perKeyObject = true ∧
+    Oracle.C10.tlcpParams.storeAfterFinished = true ∧ Oracle.C10.dtlcpParams.storeAfterFinished = true ∧
+    Oracle.C10.tlcpParams.verifyOnLoad = true ∧ Oracle.C10.dtlcpParams.verifyOnLoad = true ∧
+    Facts.tlcp.resClientFullOrder = ["doFullHandshake", "establishKeys", "sendFinished", "readFinished", "createNewSession"] ∧
+    Facts.dtlcp.resClientFullOrder = Facts.tlcp.resClientFullOrder ∧
+    Facts.tlcp.resClientResumeOrder = ["establishKeys", "readFinished", "sendFinished"] ∧
+    Facts.dtlcp.resClientResumeOrder = Facts.tlcp.resClientResumeOrder ∧
+    Facts.tlcp.resServerFullOrder = ["pickCipherSuite", "doFullHandshake", "establishKeys", "readFinished", "createSessionState", "sendFinished"] ∧
+    Facts.dtlcp.resServerFullOrder = Facts.tlcp.resServerFullOrder ∧
+    Facts.tlcp.resServerResumeOrder = ["doResumeHandshake", "establishKeys", "sendFinished", "readFinished"] ∧
+    Facts.dtlcp.resServerResumeOrder = Facts.tlcp.resServerResumeOrder ∧
+    Facts.tlcp.resClientPutKeys = ["sessionKey", "dst"] ∧ Facts.dtlcp.resClientPutKeys = ["sessionKey", "dst"] ∧
+    Facts.tlcp.resCleanupGuard = "session != nil && err != nil" ∧ Facts.dtlcp.resCleanupGuard = "session != nil && err != nil" ∧
+    Facts.tlcp.resCleanupKeys = ["dst", "sessionId"] ∧ Facts.dtlcp.resCleanupKeys = ["dst", "sessionId"] ∧
+    Facts.tlcp.resCleanupPutsNil = true ∧ Facts.dtlcp.resCleanupPutsNil = true ∧
+    Facts.tlcp.resLoadKey = "dest" ∧ Facts.dtlcp.resLoadKey = "dest" ∧
+    Facts.tlcp.resServerGuards.drop 1 = ["len(hs.clientHello.sessionId) == 0", "!ok", "needClientCerts && !sessionHasClientCerts",
+      "sessionHasClientCerts && c.config.ClientAuth == NoClientCert", "c.vers != hs.sessionState.vers", "!cipherSuiteOk", "hs.suite == nil"] ∧
+    Facts.dtlcp.resServerGuards.drop 1 = Facts.tlcp.resServerGuards.drop 1 ∧
+    Facts.tlcp.resServerGuardsEndTrue = true ∧ Facts.dtlcp.resServerGuardsEndTrue = true ∧
+    Facts.tlcp.resClientResumedExpr = "hs.session != nil && hs.hello.sessionId != nil && len(hs.serverHello.sessionId) > 0 && bytes.Equal(hs.serverHello.sessionId, hs.hello.sessionId)" ∧
+    Facts.dtlcp.resClientResumedExpr = Facts.tlcp.resClientResumedExpr ∧
+    Facts.tlcp.resClientChecks = ["hs.session.vers != c.vers", "hs.session.cipherSuite != hs.suite.id", "!(len(hs.session.masterSecret) > 0)"] ∧
+    Facts.dtlcp.resClientChecks = Facts.tlcp.resClientChecks ∧
+    Facts.tlcp.resSessionIdLen = 32 ∧ Facts.dtlcp.resSessionIdLen = 32 ∧
+    Facts.tlcp.resSessionIdFromRand = true ∧ Facts.dtlcp.resSessionIdFromRand = true ∧
+    Facts.tlcp.resServerPutCount = 1 ∧ Facts.dtlcp.resServerPutCount = 1 ∧
+    Facts.missing = [] := by
+  decide
+
+/-- both stacks run the repaired client -/
+theorem C10_repaired : Repaired Oracle.C10.tlcpParams ∧ Repaired Oracle.C10.dtlcpParams :=
+  ⟨⟨C10_facts.1, C10_facts.2.2.1⟩, ⟨C10_facts.2.1, C10_facts.2.2.2.1⟩⟩
+
+/-! ### non-vacuity and the witnesses of the two findings -/
+
+section examples
+open Gotlcp.Oracle.C10
+
+def hon (dst : Nat) : Conn := { pre := [], dst := dst, server := dst, csuites := [57427, 57363], ssuites := [57427, 57363], fault := .none }
+
+/-- a history in which resumption happens (so `C10_resumed_only_if` is not vacuous) and one in
+which the fall-back branch is taken after the server lost its cache -/
+example : ((run tlcpParams id (Resumption.init 64 1 4) [hon 0, hon 0, { hon 0 with pre := [.dropServer] }, hon 0]).2.map
+    (fun o => (o.cOk, o.sOk, o.cRes, o.sRes))) =
+    [(true, true, false, false), (true, true, true, true), (true, true, false, false), (true, true, true, true)] := by decide
+
+/-- F5 witness: with one object under both keys (`perKeyObject := false`, the code before the
+repair) and a client cache of capacity 1, the second honest connection fails on both sides. -/
+example : ((run { tlcpParams with perKeyObject := false } id (Resumption.init 64 1 4) [hon 0, hon 0, hon 0]).2.map
+    (fun o => (o.cOk, o.sOk))) = [(true, true), (false, false), (true, true)] := by decide
+
+/-- F16 witness: with `createNewSession` before `readFinished` (`storeAfterFinished := false`) a
+session whose handshake failed at the server's Finished is offered — and resumed — by the next
+connection. -/
+example : ((run { tlcpParams with storeAfterFinished := false } id (Resumption.init 64 4 4)
+      [{ hon 0 with fault := .serverFin }, hon 0]).2.map (fun o => (o.cOk, o.offered, o.returned, o.cRes))) =
+    [(false, none, some 0, false), (true, some 0, some 0, true)] := by decide
+
+/-- … and on the repaired order the same history offers nothing and runs a full handshake -/
+example : ((run tlcpParams id (Resumption.init 64 4 4)
+      [{ hon 0 with fault := .serverFin }, hon 0]).2.map (fun o => (o.cOk, o.offered, o.returned, o.cRes))) =
+    [(false, none, some 0, false), (true, none, some 1, false)] := by decide
+
+example : Function.Injective (id : Nat → Nat) := fun _ _ h => h
+
+end examples
 
 end Gotlcp.Props.C10
